@@ -12,7 +12,7 @@ from props import commit_common as cc
 
 PROP = "C02"
 PROPS_FILE = "props/C02.v"
-GEN = ["gen_commit"]
+GEN = ["gen_commit", "gen_barrier"]
 CORRESPONDENCES = ["sync-take:real-trace-accepted-by-model"]
 RULE = ("real Snapshot.take and async_take+wait on 1-4 simulated ranks (threads under a deterministic scheduler; "
         "workloads: private/replicated tensors, per-rank extra keys, batching on/off, chunking) under schedules "
